@@ -29,12 +29,14 @@ inductive Doc where
 def Doc.isUndefined : Doc → Bool
   | .undefined => true | _ => false
 
-/-- `Digit::FastStringToNumber<SizeT>` (no validation, 32-bit wrap) -/
-def fastNum (key : List Nat) : Nat :=
-  match key with
-  | [] => 0
-  | k :: ks => ks.foldl (fun a ch => (a * 10 + ch + 2 ^ sizeTBits - W1.digitZero) % 2 ^ sizeTBits)
-      ((k + 2 ^ sizeTBits - W1.digitZero) % 2 ^ sizeTBits)
+/-- the element a key denotes on an array (`Value::GetValue(key, length)`, after the repair "array key must be a
+plain decimal index"): 1 to 10 decimal digits; anything else (the empty key, `:`, a sign, eleven digits …) denotes
+no element.  Before the repair the key went unvalidated through `Digit::FastStringToNumber<SizeT>` (32-bit wrap). -/
+def keyIndex (key : List Nat) : Option Nat :=
+  if key.length = 0 ∨ key.length > 10 then none
+  else if key.all (fun ch => decide (W1.digitZero ≤ ch ∧ ch ≤ W1.digitZero + 9)) then
+    some (key.foldl (fun a ch => a * 10 + (ch - W1.digitZero)) 0)
+  else none
 
 /-- `Value::GetValue(key, length)` -/
 def Doc.getKey : Doc → List Nat → Option Doc
@@ -43,8 +45,11 @@ def Doc.getKey : Doc → List Nat → Option Doc
     | some (_, v) => if v.isUndefined then none else some v
     | none => none
   | .arr xs, key =>
-    match xs[fastNum key]? with
-    | some v => if v.isUndefined then none else some v
+    match keyIndex key with
+    | some i =>
+      match xs[i]? with
+      | some v => if v.isUndefined then none else some v
+      | none => none
     | none => none
   | _, _ => none
 
